@@ -223,6 +223,56 @@ def gen_values(rng, s, o, n, dyadic):
     return mode, vals
 
 
+def value_dtype_layer(ck, n_cases):
+    """coordinates given as float32 arrays (values exactly representable in float32): what is stored is the nearest integer of
+    the value under the scaling, computed in double precision, or OverflowError - as for any other finite coordinates"""
+    import laspy
+    for ci in range(n_cases):
+        s_ = ck.rng.choice([0.001, 0.01, 0.125, 0.5, 1.0])
+        o_ = ck.rng.choice([0.0, 100.0, -2048.0])
+        las = laspy.create(point_format=ck.rng.choice([0, 3, 6]))
+        las.header.scales = np.array([s_, s_, s_])
+        las.header.offsets = np.array([o_, o_, o_])
+        n = 3
+        las.points = laspy.ScaleAwarePointRecord.zeros(n, header=las.header)
+        vals = np.array([ck.rng.choice([-2000000.125, 1048576.5, 21474836.0, -21474836.0, 3.25, 16777215.0, -0.375, 123456.75, 8388607.5]) for _ in range(n)], dtype=np.float32)
+        ax = ck.rng.choice("xyz")
+        exact = [(Fraction(float(v)) - Fraction(o_)) / Fraction(s_) for v in vals]
+        inp = {"kind": "float32_values", "scale": s_, "offset": o_, "axis": ax, "values": [float(v) for v in vals]}
+        ck.case(("f32", s_, o_, ax, tuple(inp["values"])), nontrivial=True)
+        ck.count("float32_values")
+        if any(abs(q - round(q)) == Fraction(1, 2) or abs(abs(q) - (2 ** 31 - 1)) < 4 or (abs(q) > 10 ** 7 and abs(abs(q - (q.numerator // q.denominator)) - Fraction(1, 2)) < Fraction(1, 100)) for q in exact):
+            ck.count("float32_values_skipped_near_tie_or_edge")
+            continue
+        fits = all(-(2 ** 31) <= q <= 2 ** 31 - 1 for q in exact)
+        before = las.points.array.tobytes()
+        try:
+            setattr(las, ax, vals)
+            err = None
+        except OverflowError:
+            err = "Overflow"
+        except Exception as e:
+            err = type(e).__name__
+        if not fits:
+            if err != "Overflow":
+                ck.fail(f"float32 coordinates {inp['values']} (scale {s_}, offset {o_}) do not fit 32 bits but the assignment "
+                        f"{'succeeded' if err is None else 'raised ' + err}: stored {las.points.array[ax.upper()].tolist()}", inp)
+            elif las.points.array.tobytes() != before:
+                ck.fail("refused float32 assignment modified the record", inp)
+            continue
+        if err is not None:
+            ck.fail(f"float32 coordinates {inp['values']} (scale {s_}, offset {o_}) fit but the assignment raised {err}", inp)
+            continue
+        try:
+            want = [int(round_half_even(q)) for q in exact]
+        except NearTie:
+            ck.count("float32_values_skipped_near_tie_or_edge")
+            continue
+        got = las.points.array[ax.upper()].astype(np.int64).tolist()
+        if got != want:
+            ck.fail(f"float32 coordinates {inp['values']} (scale {s_}, offset {o_}): stored {got}, the nearest representable integers are {want}", inp)
+
+
 def integer_scaling_probe(ck):
     """fixed cases: a scaling given with Python ints (lists of ints, as a caller writing `scales=[2, 2, 2]` does). The
     coordinates presented are X*scale+offset, also when that exceeds 32 bits"""
@@ -483,6 +533,7 @@ def run(ck):
     ck.count("skipped_near_tie", skipped)
     stream_layer(ck, 60 if q else 1500)
     integer_scaling_probe(ck)
+    value_dtype_layer(ck, 80 if q else 2000)
     out = ck.driver(lines)
     bad = None
     if out is None or len(out) != len(lines):
